@@ -118,7 +118,7 @@ def witnessNoPost : Schema :=
 example : witnessNoPost.postFree = true := by decide
 
 example : witnessNoPost.WF := by
-  refine ⟨?_, trivial, trivial, trivial⟩
+  refine ⟨by decide, ?_, trivial, trivial, trivial⟩
   intro a b ka fma sa kb fmb sb ha hb hab
   simp only [Fields.find] at ha hb
   split at ha
